@@ -1,3 +1,4 @@
+import BalmProofs.JudgeExact
 import BalmProofs.JudgeSpec
 import Balm
 import BalmProofs.Props.C04
